@@ -3,15 +3,172 @@ import BppProofs.Lemmas.NumDeriv
 # C12 — numerical derivatives are transparent and exact on low-degree polynomials
 
 Property theorems only; helper lemmas are in `Lemmas/NumDeriv.lean`.
+All statements are about the model of `BppModel/NumDeriv.lean` read over `ℝ` (rounding is not
+modelled).
+
+Part 1: exactness and remainder identities of the difference formulas as they are written in the
+sources (`d1Two`, `d1Three`, `d2Three`, `crossThree`, `d1Five`, `d2Five`, `d1Side`, `d2Side` are the
+expressions of Two:90, Three:132-133, Three:198, Five:63-64, Five:75-76/88-89).
 -/
 namespace Bpp.C12
 open Bpp Bpp.NumDeriv
 
-/-! ## Exactness of the difference formulas (as written in the sources, read over ℝ) -/
+/-! ## 1. Exactness of the difference formulas -/
 
-/-- two-point formula: exact on polynomials of degree ≤ 1, for any step -/
+/-- two-point formula: exact on polynomials of degree ≤ 1, whichever side the probe is on -/
 theorem two_point_exact_deg1 (a b x h : ℝ) (hh : h ≠ 0) :
     d1Two (a + b * x) (a + b * (x + h)) h = b := by
   rw [d1Two_real]; field_simp; ring
+
+/-- … and first order: on a quadratic the error is `c * h` -/
+theorem two_point_remainder_deg2 (a b c x h : ℝ) (hh : h ≠ 0) :
+    d1Two (a + b * x + c * x ^ 2) (a + b * (x + h) + c * (x + h) ^ 2) h = (b + 2 * c * x) + c * h := by
+  rw [d1Two_real]; field_simp; ring
+
+/-- three-point first derivative with symmetric probes (`hf3 = -hf1`): exact on degree ≤ 2 -/
+theorem three_point_d1_exact_deg2 (a b c x h : ℝ) (hh : h ≠ 0) :
+    d1Three (a + b * (x + h) + c * (x + h) ^ 2) (a + b * (x - h) + c * (x - h) ^ 2) h (-h)
+      = b + 2 * c * x := by
+  rw [d1Three_real]
+  have : h - -h ≠ 0 := by intro e; apply hh; linarith
+  field_simp; ring
+
+/-- … second order: on a cubic the error is `d * h^2` -/
+theorem three_point_d1_remainder_deg3 (a b c d x h : ℝ) (hh : h ≠ 0) :
+    d1Three (a + b * (x + h) + c * (x + h) ^ 2 + d * (x + h) ^ 3)
+            (a + b * (x - h) + c * (x - h) ^ 2 + d * (x - h) ^ 3) h (-h)
+      = (b + 2 * c * x + 3 * d * x ^ 2) + d * h ^ 2 := by
+  rw [d1Three_real]
+  have : h - -h ≠ 0 := by intro e; apply hh; linarith
+  field_simp; ring
+
+/-- one-sided form (any two distinct steps, e.g. `h` and `h/2` next to a bound): exact on degree ≤ 1,
+and on a quadratic the error is `c * (hf1 + hf3)` -/
+theorem three_point_d1_one_sided (a b c x hf1 hf3 : ℝ) (hne : hf1 ≠ hf3) :
+    d1Three (a + b * (x + hf1) + c * (x + hf1) ^ 2) (a + b * (x + hf3) + c * (x + hf3) ^ 2) hf1 hf3
+      = (b + 2 * c * x) + c * (hf1 + hf3) := by
+  rw [d1Three_real]
+  have : hf1 - hf3 ≠ 0 := sub_ne_zero.mpr hne
+  field_simp; ring
+
+theorem three_point_d1_one_sided_exact_deg1 (a b x hf1 hf3 : ℝ) (hne : hf1 ≠ hf3) :
+    d1Three (a + b * (x + hf1)) (a + b * (x + hf3)) hf1 hf3 = b := by
+  have := three_point_d1_one_sided a b 0 x hf1 hf3 hne
+  simpa using this
+
+/-- three-point second derivative with symmetric probes: exact on degree ≤ 3 -/
+theorem three_point_d2_exact_deg3 (a b c d x h : ℝ) (hh : h ≠ 0) :
+    d2Three (a + b * (x + h) + c * (x + h) ^ 2 + d * (x + h) ^ 3)
+            (a + b * x + c * x ^ 2 + d * x ^ 3)
+            (a + b * (x - h) + c * (x - h) ^ 2 + d * (x - h) ^ 3) h (-h)
+      = 2 * c + 6 * d * x := by
+  rw [d2Three_real]
+  have : h - -h ≠ 0 := by intro e; apply hh; linarith
+  have h' : -h ≠ 0 := neg_ne_zero.mpr hh
+  field_simp; ring
+
+/-- … second order: on a quartic the error is `2 * e * h^2` -/
+theorem three_point_d2_remainder_deg4 (a b c d e x h : ℝ) (hh : h ≠ 0) :
+    d2Three (a + b * (x + h) + c * (x + h) ^ 2 + d * (x + h) ^ 3 + e * (x + h) ^ 4)
+            (a + b * x + c * x ^ 2 + d * x ^ 3 + e * x ^ 4)
+            (a + b * (x - h) + c * (x - h) ^ 2 + d * (x - h) ^ 3 + e * (x - h) ^ 4) h (-h)
+      = (2 * c + 6 * d * x + 12 * e * x ^ 2) + 2 * e * h ^ 2 := by
+  rw [d2Three_real]
+  have : h - -h ≠ 0 := by intro e; apply hh; linarith
+  have h' : -h ≠ 0 := neg_ne_zero.mpr hh
+  field_simp; ring
+
+/-- one-sided form (any two distinct non-zero steps): exact on degree ≤ 2, error
+`2 * d * (hf1 + hf3)` on a cubic -/
+theorem three_point_d2_one_sided (a b c d x hf1 hf3 : ℝ) (h1 : hf1 ≠ 0) (h3 : hf3 ≠ 0) (hne : hf1 ≠ hf3) :
+    d2Three (a + b * (x + hf1) + c * (x + hf1) ^ 2 + d * (x + hf1) ^ 3)
+            (a + b * x + c * x ^ 2 + d * x ^ 3)
+            (a + b * (x + hf3) + c * (x + hf3) ^ 2 + d * (x + hf3) ^ 3) hf1 hf3
+      = (2 * c + 6 * d * x) + 2 * d * (hf1 + hf3) := by
+  rw [d2Three_real]
+  have : hf1 - hf3 ≠ 0 := sub_ne_zero.mpr hne
+  field_simp; ring
+
+theorem three_point_d2_one_sided_exact_deg2 (a b c x hf1 hf3 : ℝ) (h1 : hf1 ≠ 0) (h3 : hf3 ≠ 0) (hne : hf1 ≠ hf3) :
+    d2Three (a + b * (x + hf1) + c * (x + hf1) ^ 2) (a + b * x + c * x ^ 2)
+            (a + b * (x + hf3) + c * (x + hf3) ^ 2) hf1 hf3 = 2 * c := by
+  have := three_point_d2_one_sided a b c 0 x hf1 hf3 h1 h3 hne
+  simpa using this
+
+/-- a polynomial of degree ≤ 5 in one variable, by its coefficients -/
+def poly5 (c : Fin 6 → ℝ) (t : ℝ) : ℝ :=
+  c 0 + c 1 * t + c 2 * t ^ 2 + c 3 * t ^ 3 + c 4 * t ^ 4 + c 5 * t ^ 5
+def poly5' (c : Fin 6 → ℝ) (t : ℝ) : ℝ :=
+  c 1 + 2 * c 2 * t + 3 * c 3 * t ^ 2 + 4 * c 4 * t ^ 3 + 5 * c 5 * t ^ 4
+def poly5'' (c : Fin 6 → ℝ) (t : ℝ) : ℝ :=
+  2 * c 2 + 6 * c 3 * t + 12 * c 4 * t ^ 2 + 20 * c 5 * t ^ 3
+
+/-- five-point first derivative (central): fourth order — on degree ≤ 5 the error is `-4 c₅ h⁴`,
+hence exact on degree ≤ 4 -/
+theorem five_point_d1_remainder_deg5 (c : Fin 6 → ℝ) (x h : ℝ) (hh : h ≠ 0) :
+    d1Five (poly5 c (x - 2 * h)) (poly5 c (x - h)) (poly5 c (x + h)) (poly5 c (x + 2 * h)) h
+      = poly5' c x - 4 * c 5 * h ^ 4 := by
+  rw [d1Five_real]; unfold poly5 poly5'; field_simp; ring
+
+theorem five_point_d1_exact_deg4 (c : Fin 6 → ℝ) (hc : c 5 = 0) (x h : ℝ) (hh : h ≠ 0) :
+    d1Five (poly5 c (x - 2 * h)) (poly5 c (x - h)) (poly5 c (x + h)) (poly5 c (x + 2 * h)) h
+      = poly5' c x := by
+  rw [five_point_d1_remainder_deg5 c x h hh, hc]; ring
+
+/-- five-point second derivative (central): exact on degree ≤ 5 -/
+theorem five_point_d2_exact_deg5 (c : Fin 6 → ℝ) (x h : ℝ) (hh : h ≠ 0) :
+    d2Five (poly5 c (x - 2 * h)) (poly5 c (x - h)) (poly5 c x) (poly5 c (x + h)) (poly5 c (x + 2 * h)) h
+      = poly5'' c x := by
+  rw [d2Five_real]; unfold poly5 poly5''; field_simp; ring
+
+/-- … fourth order: the error on `t^6` is `-8 h⁴` -/
+theorem five_point_d2_remainder_deg6 (x h : ℝ) (hh : h ≠ 0) :
+    d2Five ((x - 2 * h) ^ 6) ((x - h) ^ 6) (x ^ 6) ((x + h) ^ 6) ((x + 2 * h) ^ 6) h
+      = 30 * x ^ 4 - 8 * h ^ 4 := by
+  rw [d2Five_real]; field_simp; ring
+
+/-- the one-sided fallbacks of the five-point scheme (`s = 1` forward, `s = -1` backward, as
+`d1Side f4 f3 h` / `d1Side f3 f2 h`): exact on degree ≤ 1 resp. ≤ 2, first order beyond -/
+theorem five_point_forward (a b c d x h : ℝ) (hh : h ≠ 0) :
+    d1Side (a + b * (x + h) + c * (x + h) ^ 2) (a + b * x + c * x ^ 2) h = (b + 2 * c * x) + c * h ∧
+    d2Side (a + b * (x + 2 * h) + c * (x + 2 * h) ^ 2 + d * (x + 2 * h) ^ 3)
+           (a + b * (x + h) + c * (x + h) ^ 2 + d * (x + h) ^ 3)
+           (a + b * x + c * x ^ 2 + d * x ^ 3) h = (2 * c + 6 * d * x) + 6 * d * h := by
+  rw [d1Side_real, d2Side_real]; constructor <;> (field_simp; ring)
+
+theorem five_point_backward (a b c d x h : ℝ) (hh : h ≠ 0) :
+    d1Side (a + b * x + c * x ^ 2) (a + b * (x - h) + c * (x - h) ^ 2) h = (b + 2 * c * x) - c * h ∧
+    d2Side (a + b * x + c * x ^ 2 + d * x ^ 3)
+           (a + b * (x - h) + c * (x - h) ^ 2 + d * (x - h) ^ 3)
+           (a + b * (x - 2 * h) + c * (x - 2 * h) ^ 2 + d * (x - 2 * h) ^ 3) h = (2 * c + 6 * d * x) - 6 * d * h := by
+  rw [d1Side_real, d2Side_real]; constructor <;> (field_simp; ring)
+
+/-- a polynomial of degree ≤ 2 in each of two variables (coefficients `c i j` of `s^i t^j`) -/
+def biquad (c : Fin 3 → Fin 3 → ℝ) (s t : ℝ) : ℝ :=
+  c 0 0 + c 0 1 * t + c 0 2 * t ^ 2 + c 1 0 * s + c 1 1 * s * t + c 1 2 * s * t ^ 2
+    + c 2 0 * s ^ 2 + c 2 1 * s ^ 2 * t + c 2 2 * s ^ 2 * t ^ 2
+def biquadXY (c : Fin 3 → Fin 3 → ℝ) (s t : ℝ) : ℝ :=
+  c 1 1 + 2 * c 1 2 * t + 2 * c 2 1 * s + 4 * c 2 2 * s * t
+
+/-- cross derivative on the 2×2 stencil: exact when the degree is ≤ 2 in each of the two variables
+(in particular on bilinear functions) -/
+theorem cross_exact_biquadratic (c : Fin 3 → Fin 3 → ℝ) (x y h1 h2 : ℝ) (hh1 : h1 ≠ 0) (hh2 : h2 ≠ 0) :
+    crossThree (biquad c (x - h1) (y - h2)) (biquad c (x - h1) (y + h2))
+               (biquad c (x + h1) (y - h2)) (biquad c (x + h1) (y + h2)) h1 h2
+      = biquadXY c x y := by
+  rw [crossThree_real]; unfold biquad biquadXY; field_simp; ring
+
+theorem cross_exact_bilinear (a b c d x y h1 h2 : ℝ) (hh1 : h1 ≠ 0) (hh2 : h2 ≠ 0) :
+    crossThree (a + b * (x - h1) + c * (y - h2) + d * (x - h1) * (y - h2))
+               (a + b * (x - h1) + c * (y + h2) + d * (x - h1) * (y + h2))
+               (a + b * (x + h1) + c * (y - h2) + d * (x + h1) * (y - h2))
+               (a + b * (x + h1) + c * (y + h2) + d * (x + h1) * (y + h2)) h1 h2 = d := by
+  rw [crossThree_real]; field_simp; ring
+
+/-- second order: the error on `s^3 t` is `h1^2` (and symmetrically) -/
+theorem cross_remainder_cubic (x y h1 h2 : ℝ) (hh1 : h1 ≠ 0) (hh2 : h2 ≠ 0) :
+    crossThree ((x - h1) ^ 3 * (y - h2)) ((x - h1) ^ 3 * (y + h2))
+               ((x + h1) ^ 3 * (y - h2)) ((x + h1) ^ 3 * (y + h2)) h1 h2 = 3 * x ^ 2 + h1 ^ 2 := by
+  rw [crossThree_real]; field_simp; ring
 
 end Bpp.C12
